@@ -320,6 +320,12 @@ class LRI(dict):
         with self._lock:
             return super().__len__()
 
+    def __contains__(self, key):
+        # update() stores its items one by one; take the lock so that a
+        # membership test never observes the state in between
+        with self._lock:
+            return super().__contains__(key)
+
     def __ior__(self, other):
         # dict.__ior__ would write to the dict storage only, bypassing
         # the linked list and the size limit
